@@ -46,6 +46,7 @@ func runC03(r *Report) {
 	atomicWrites(r, "R8", objNamed("alloc", "allocated"), 1)
 	c03R9(r)
 	c03R10(r)
+	rangeExhaustive(r, "R10", func(f *ssa.Function) bool { return relPkg(f) == "tor" && f.Name() == "Expire" }, 2)
 	c03R11(r)
 	// eviction walks the table of torrents: a running torrent that is not in it is never evicted (C17.R4 re-evaluated)
 	c17Table(r, "R4")
@@ -1074,4 +1075,68 @@ func c03R11(r *Report) {
 			fmt.Sprintf("alloc makes a heap buffer on a path that has not established size < %d, the cutoff above which Free calls Munmap: such a buffer is later unmapped, Munmap fails with EINVAL and Pieces.del panics on the error with the store's lock held (eviction, hash mismatch or deletion of that piece kills the process)", kFree))
 	}
 	r.Sentinel("R11", n, 3)
+}
+
+// rangeExhaustive: a walk over the torrent table visits every torrent. tor.Range stops at the first callback that
+// answers false (it wraps sync.Map.Range, whose order is random); a callback may answer false only after it has
+// recorded what it was looking for (a store to a variable of the enclosing function: `found = t; return false`).
+// A `return false` meant as "skip this one" ends the walk at a random point: the eviction pass then never reaches
+// the torrent that is over its share, a listing loses entries.
+func rangeExhaustive(r *Report, rule string, sel func(caller *ssa.Function) bool, min int) {
+	p := r.P
+	rng := p.Func("tor", "Range")
+	if !r.Anchor(rule, "tor.Range", rng != nil) {
+		return
+	}
+	n := 0
+	calls, _ := p.callSitesOf(rng)
+	for _, cs := range calls {
+		caller := cs.Parent()
+		if !sel(enclosingNamed(caller)) || len(cs.Common().Args) != 1 {
+			continue
+		}
+		var cb *ssa.Function
+		switch x := cs.Common().Args[0].(type) {
+		case *ssa.MakeClosure:
+			cb, _ = x.Fn.(*ssa.Function)
+		case *ssa.Function:
+			cb = x
+		}
+		if cb == nil || cb.Blocks == nil {
+			r.Undecided(rule, fmt.Sprintf("%s/walk-is-exhaustive", fname(caller)), cs.Pos(), "the callback handed to tor.Range is not a function literal")
+			continue
+		}
+		n++
+		r.Fn(cb)
+		var bad *ssa.Return
+		for _, ret := range returnsOf(cb) {
+			res := retResults(ret)
+			if len(res) != 1 {
+				continue
+			}
+			if b, isb := constBool(res[0]); isb && b {
+				continue
+			}
+			// a search that has found its item: a store through a captured variable dominates the return
+			found := anyInstr(cb, func(in ssa.Instruction) bool {
+				st, ok := in.(*ssa.Store)
+				if !ok || !instrDominates(st, ret) {
+					return false
+				}
+				_, isFree := st.Addr.(*ssa.FreeVar)
+				return isFree
+			}) != nil
+			if !found {
+				bad = ret
+			}
+		}
+		msg := ""
+		pos := cs.Pos()
+		if bad != nil {
+			pos = bad.Pos()
+			msg = fmt.Sprintf("the callback that %s hands to tor.Range can answer false (%s) without having recorded a result: Range stops there, at a random point of the table — the torrents after it are never visited (an eviction pass that never reaches the torrent over its share, a listing without some of its entries)", fname(enclosingNamed(caller)), p.Fset.Position(bad.Pos()))
+		}
+		r.Check(bad == nil, rule, fmt.Sprintf("%s/walk-is-exhaustive", fname(caller)), pos, "the callback answers true on every path (or false only after recording what it searched for)", msg)
+	}
+	r.Sentinel(rule+".walks", n, min)
 }
